@@ -208,9 +208,9 @@ func specWasmDryReport(ext []string, roots []*Node, i int) string {
 //@   invariant len: jParent != nil && len(jParent.Children) == len(parent.children) && (old(jParent) != nil ==> jParent == old(jParent) && jParent.Name == old(jParent.Name)) && (old(jParent) == nil ==> fresh(jParent) && jParent.Name == parent.name)
 //@   invariant level: forall j int :: {jParent.Children[j]} 0 <= j && j < $i ==> jParent.Children[j] != nil && fresh(jParent.Children[j]) && jParent.Children[j].Name == parent.children[j].name && len(jParent.Children[j].Children) == len(parent.children[j].children)
 //@   invariant frame: (forall x *jsonNode :: {x.Children} !fresh(x) && x != old(jParent) ==> x.Children == old(x.Children)) && (forall x *jsonNode :: {x.Name} !fresh(x) ==> x.Name == old(x.Name))
-// jsonSpreader.spread itself (one encoder, Encode per root) is still assumed: its loop invariant over the encoder trace
-// does not discharge within the budget in this build variant (the default build's twin, formattedSpreaderSimple.spread
-// [jsonNode], is verified); toJSONNode above is verified.
+// jsonSpreader.spread itself (one encoder, Encode per root) is still assumed: the last conjunct of its loop invariant
+// (arity of the records already encoded, across the whole-field frame of toJSONNode) does not discharge within the budget;
+// the default build's twin, formattedSpreaderSimple.spread[jsonNode], is verified, and toJSONNode above is verified.
 //@ func gtree.jsonSpreader.spread
 //@   assumed
 //@   modifies out, wfail, encTrace, encoders, jsonNode.Children
